@@ -11,8 +11,8 @@ THEOREMS = [
     "PorepyVerif.C29.split_inside_parent_with_tags",
     "PorepyVerif.C29.split_nodup",
     "PorepyVerif.C29.split_noncrossing",
-    "PorepyVerif.C29.split_pieces_tile_parent",
     "PorepyVerif.C29.split_tag_info",
+    "PorepyVerif.C29.split_parent_is_first",
     "PorepyVerif.C29.inter_sound",
     "PorepyVerif.C29.inter_complete",
     "PorepyVerif.C29.prefilter_sound",
@@ -21,17 +21,17 @@ THEOREMS = [
 LEAN_MODULES = ["PorepyVerif.C29.Props"]
 AUDIT = "PorepyVerif/C29/Audit.lean"
 DRIVER = "PorepyVerif/C29/Driver.lean"
-N = {"quick": 500, "thorough": 12000}
+N = {"quick": 400, "thorough": 8000}
 TOL = 1e-8
 RULE = ("sets of 1-8 segments (thorough: up to 12) with integer end points in a box |x| <= B, B in {2,3,4,6,10} (small boxes make "
-        "coincidences frequent), given as a point table (points may be shared by index or repeated under different indices) plus "
+        "coincidences frequent; collinear extensions reach |x| <= 14, isolated segments sit at |x| about 30-100), given as a point table (points may be shared by index or repeated under different indices) plus "
         "edges with 0, 1 or 2 tag rows; built on purpose: proper crossings with fractional intersection points, several lines through "
         "one fractional point, T-junctions, shared end points, collinear overlaps / containment / touching / chains of collinear pieces, "
         "exact and reversed duplicates with different tags, parallel non-collinear pairs, isolated far-away segments, axis-aligned segments; "
         "no zero-length segments. non-trivial = at least one pair of input segments has a common point; distinct = distinct (points, edges)")
 TRUSTED = [
     "modelled, not verified: binary64 rounding in segments_2d and the tolerance-based point merging of uniquify_point_set (the model "
-    "deduplicates exact rational points; for integer inputs with |x| <= 10 distinct candidate points differ by > 1e-6 >> tol = 1e-8, "
+    "deduplicates exact rational points; for the generated integer inputs distinct candidate points differ by > 4e-7 >> tol = 1e-8, "
     "so the two agree; output points are matched to the model's rationals within 1e-9)",
     "not modelled: the sweep in _identify_overlapping_rectangles and the normalised cross-product side prefilter (np.sqrt, nan handling); "
     "theorems prefilter_sound / side_prefilter_sound show that the exact versions of both tests only discard pairs without a common point, "
@@ -45,7 +45,7 @@ EXPLANATION = ("CORE: the model is the algorithm without the two prefilters over
                "(non-parallel, parallel and collinear/overlapping parents). Correspondence compares the set of (edge, parent, tags) and the ordered "
                "tag_info list; the oracle checks the property on the real function with exact rationals recovered from the float output.")
 ASSUMPTIONS = ["every input segment has positive length (zero-length segments make segments_2d raise or pass through, depending on the prefilter)",
-               "integer coordinates with |x| <= 10 and tol = 1e-8: all exact decision margins exceed the tolerances by orders of magnitude"]
+               "integer coordinates, |x| <= 14 for every segment that meets another one, tol = 1e-8: distinct candidate points differ by > 4e-7 and every non-zero determinant by >= 1, orders of magnitude above the tolerances"]
 
 
 # ----------------------------------------------------------------------------- generator
@@ -109,7 +109,14 @@ def gen_case(rng, tier):
             a, b = rng.choice(segs)
             s = rng.choice([(0, 1), (1, 0), (1, 1), (0, -1), (-1, 0)])
             segs.append(((a[0] + s[0], a[1] + s[1]), (b[0] + s[0], b[1] + s[1])))
-        elif kind < 0.93:  # crossing through the midpoint region of an existing segment
+        elif kind < 0.90:  # several segments through one (usually fractional) point: point reflections about C = c/2
+            c = (rng.randint(-B, B), rng.randint(-B, B))
+            for _ in range(rng.randint(2, 3)):
+                p = _rand_pt(rng, B)
+                q = (c[0] - p[0], c[1] - p[1])
+                if p != q and _inside(q, 10) and len(segs) < n:
+                    segs.append((p, q))
+        elif kind < 0.95:  # crossing through the midpoint region of an existing segment
             a, b = rng.choice(segs)
             dx, dy = b[0] - a[0], b[1] - a[1]
             k = rng.choice([1, 1, 2])
@@ -334,7 +341,7 @@ def oracle(case):
         if not (_on_seg(a, b, u) and _on_seg(a, b, v)):
             return {"what": f"edge {k} {_s(u)}-{_s(v)} does not lie inside its parent {par} {_s(a)}-{_s(b)}", "key": "edge-outside-parent"}
         if tuple(int(t) for t in new_e[2:, k]) != tg:
-            return {"what": f"edge {k} carries tags {list(new_e[2:, k])}, its parent {par} has {list(tg)}", "key": "wrong-tags"}
+            return {"what": f"edge {k} carries tags {[int(t) for t in new_e[2:, k]]}, its parent {par} has {list(tg)}", "key": "wrong-tags"}
     # (a) meet only at shared end points
     for k in range(m):
         for l in range(k + 1, m):
@@ -374,8 +381,11 @@ def oracle(case):
     # prefilter helper against brute force: the sweep must report exactly the pairs of closed boxes that overlap
     p = np.array(case["pts"], dtype=float).T.reshape((2, -1))
     e = np.array(case["edges"], dtype=int).T.reshape((2 + ntags, -1))
-    x0, x1, y0, y1 = pp.intersections._axis_aligned_bounding_box_2d(p, e)
-    pairs = pp.intersections._identify_overlapping_rectangles(x0, x1, y0, y1)
+    try:
+        x0, x1, y0, y1 = pp.intersections._axis_aligned_bounding_box_2d(p, e)
+        pairs = pp.intersections._identify_overlapping_rectangles(x0, x1, y0, y1)
+    except Exception as ex:  # noqa: BLE001
+        return {"what": f"_identify_overlapping_rectangles raised {type(ex).__name__}: {ex} on the bounding boxes of the input segments", "key": "bbox-prefilter-raises"}
     got = sorted((int(a), int(b)) for a, b in pairs.T) if pairs.size else []
     want = []
     for i in range(n):
@@ -477,5 +487,3 @@ def stats(cases, impl_outs):
             "cases_where_output_equals_input_count": trivial_branch, "cases_with_non_dyadic_intersection_point": frac_pts,
             "errors": sum(1 for o in impl_outs if isinstance(o, dict) and ("err" in o or "harness_exc" in o))}
 
-
-DISABLED = True
